@@ -6,6 +6,10 @@
 (*                  in which the code issues statements is NOT prescribed - and the properties are    *)
 (*                  evaluated in every state; what the reopened process really read (Observe) must    *)
 (*                  equal the durable image of the model, byte for byte (digests).                    *)
+(*                  The records of a trace and the refs between them are fixed by the workload (names),  *)
+(*                  not by the order in which the code wrote them: a record may point to a record that  *)
+(*                  is written later or never - PseudonymVerifies decides in every state.  "with        *)
+(*                  database:" blocks nest (Enter / Leave of a database at any depth).                   *)
 (* Strict = TRUE  : every logged statement must in addition be the next step of the program layer     *)
 (*                  (layer 2), i.e. the code has the shape that was model checked.                    *)
 EXTENDS CrashDb, Json, IOUtils, TLCExt, SequencesExt
@@ -60,6 +64,9 @@ Event(e) ==
   \/ /\ e.a = "Crash"       /\ Step(DbCrash, PCrash)
   \/ /\ e.a = "Exit"        /\ Step(DbExit, PExit)
   \/ /\ e.a = "OpenError"   /\ IF Strict THEN StrictOpenError ELSE Lib(DbOpenError)
+  (* e.a = "Unknown": the code did something the alphabet above has no event for (a statement of another  *)
+  (* kind, a row written outside the insert path or on behalf of no workload item); no disjunct matches,   *)
+  (* the trace is rejected at that event by TraceAccepted                                                  *)
 
 Observe(e) == /\ e.a = "Observe"
               /\ IF Strict THEN PObserve ELSE Lib(DbReload)
